@@ -78,7 +78,17 @@ def setup_env(P, servertype):
 def gen_history(r, n):
     steps = []
     idpool = ["alpha", "beta", "gamma", "Pyro.Daemon", "hub", "", "obj_fixed"]
-    if r.random() < 0.15:
+    if r.random() < 0.1:
+        # a forced re-registration of the SAME object under the SAME id that flips the weak flag, then the program drops its own reference
+        a = r.choice([0, 1, 2, 3, 4])
+        w = r.random() < 0.5
+        steps.append(("register", a, "alpha", False, w))
+        steps.append(("register", a, "alpha", True, not w))
+        steps.append(("call", "alpha"))
+        steps.append(("del", a))
+        steps.append(("call", "alpha"))
+        steps.append(("listing",))
+    elif r.random() < 0.15:
         # forced re-registration chain: an object moves to a new id, its old alias is taken over (or dropped), then the object is used
         a, b = r.choice([(0, 1), (1, 3), (2, 4), (3, 2)])
         ser = r.choice(fixture.SERIALIZERS)
